@@ -146,6 +146,18 @@ theorem C14_rejects (ini : Ini) (s k v : String) :
   · intro h; simp [applyOp, h]
   · intro h; simp [applyOp, h]
 
+/-- a `[Variables]` entry is not an item of another section: when the section's own keys do not contain `k`, the item does not exist
+    there - whatever `[Variables]` holds (so overriding / removing it is rejected and adding it is a plain addition) -/
+theorem C14_variable_is_not_item (secs : List (String × List KV)) (vars vars' : List KV) (s k : String) (hs : (s == "Variables") = false) :
+    hasOption currentCfg ⟨secs, vars⟩ s k = hasOption currentCfg ⟨secs, vars'⟩ s k := by
+  simp [hasOption, currentCfg, hs]
+
+/-- shipped behaviour (the INI default section counted as part of every section) against the current one, on a concrete file -/
+theorem C14_variable_witness :
+    hasOption currentCfg ⟨[("Pair", [("A-B", "x")])], [("scale", "2")]⟩ "Pair" "scale" = false ∧
+    hasOption { currentCfg with ownKeys := false } ⟨[("Pair", [("A-B", "x")])], [("scale", "2")]⟩ "Pair" "scale" = true := by
+  decide
+
 /-- existence is tested modulo embedded whitespace: a whitespace variant of a stored key exists -/
 theorem C14_exists_mod_whitespace (ini : Ini) (s k k' : String) (h : norm k = norm k') :
     hasOption currentCfg ini s k = hasOption currentCfg ini s k' := by
